@@ -59,8 +59,8 @@ def decorate(case, rng, allow_dash_o=True, allow_threads=False):
         return case
     case["layout"] = ",".join(pick_layout(rng) for _ in range(3))
     r = rng.random()
-    table = [(0.50, "none"), (0.14, "refill"), (0.04, "hash_twin"), (0.04, "bytes_twin"), (0.04, "dtype_twin"),
-             (0.04, "repeat"), (0.05, "alias"), (0.04, "debuglog"), (0.04, "dashO"), (0.05, "threads"), (0.02, "preempt")]
+    table = [(0.48, "none"), (0.14, "refill"), (0.04, "hash_twin"), (0.04, "bytes_twin"), (0.04, "dtype_twin"),
+             (0.04, "repeat"), (0.05, "alias"), (0.04, "debuglog"), (0.04, "dashO"), (0.05, "threads"), (0.04, "preempt")]
     h, acc = "none", 0.0
     for p, name in table:
         acc += p
